@@ -50,6 +50,7 @@ impl Scenario {
                 Fault::OversleepIo { sleep, ns } => json!({"kind": "oversleep_io", "sleep": sleep, "ns": ns}),
                 Fault::SpawnDelay { spawn, ns } => json!({"kind": "spawn_delay", "spawn": spawn, "ns": ns}),
                 Fault::PauseAll { go, offset, ns } => json!({"kind": "pause_all", "go": go, "offset": offset, "ns": ns}),
+                Fault::StallBeforeSend { search, send, ns } => json!({"kind": "stall_before_send", "search": search, "send": send, "ns": ns}),
             })
             .collect();
         let steps: Vec<Value> = self
@@ -84,6 +85,7 @@ impl Scenario {
                 "oversleep_io" => Fault::OversleepIo { sleep: f["sleep"].as_u64()?, ns: f["ns"].as_u64()? },
                 "spawn_delay" => Fault::SpawnDelay { spawn: f["spawn"].as_u64()? as usize, ns: f["ns"].as_u64()? },
                 "pause_all" => Fault::PauseAll { go: f["go"].as_u64()? as usize, offset: f["offset"].as_u64()?, ns: f["ns"].as_u64()? },
+                "stall_before_send" => Fault::StallBeforeSend { search: f["search"].as_u64()? as usize, send: f["send"].as_u64()?, ns: f["ns"].as_u64()? },
                 _ => return None,
             });
         }
@@ -442,6 +444,11 @@ pub fn gen_timing_faults(rng: &mut Rng, sc: &mut Scenario, n_go: usize, enabled:
             }),
             1 if enabled[1] => sc.faults.push(Fault::OversleepIo { sleep: rng.below(60 * n_go as u64), ns: *rng.pick(&[500_000u64, 3 * MS, 20 * MS, 150 * MS]) }),
             2 if enabled[2] => sc.faults.push(Fault::SpawnDelay { spawn: rng.below(n_go as u64) as usize, ns: *rng.pick(&[200_000u64, 2 * MS, 20 * MS, 100 * MS]) }),
+            4 if enabled[4] => sc.faults.push(Fault::StallBeforeSend {
+                search: rng.below(n_go as u64) as usize,
+                send: *rng.pick(&[0u64, 1, 1, 2, 3, 5, 8]),
+                ns: *rng.pick(&[50_000u64, 1 * MS, 5 * MS, 40 * MS, 150 * MS]),
+            }),
             3 if enabled[3] => sc.faults.push(Fault::PauseAll { go: rng.below(n_go as u64) as usize, offset: rng.below(60) * MS + rng.below(1000) * 1000, ns: *rng.pick(&[1 * MS, 10 * MS, 200 * MS]) }),
             _ => {}
         }
